@@ -2,6 +2,7 @@ import SlipVerif.Model.Reader
 import SlipVerif.Lemmas.Reader
 import SlipVerif.Lemmas.ReaderInv
 import SlipVerif.Lemmas.ReaderHalt
+import SlipVerif.Lemmas.ReaderMono
 /-
   C02 — reading is a function of the text, not of its delivery.
 
@@ -63,6 +64,7 @@ example : ([[40, 97], [98, 32, 99]] : List (List Byte)).flatten ++ [41] = ([] : 
     inside `#`-dispatch, inside a block comment, or behind a quote-like prefix whose datum is
     missing — then reading it as a whole text is an error (incomplete or parse error), for every
     table and configuration. It is never reported as `ok` with fewer or other objects. -/
+-- (concrete instances of the hypotheses, with the regenerated tables: the samples of Theorems/GenC02)
 theorem truncation_is_signalled (T : Tables) (cfg : Cfg) (p : List Byte)
     (hlive : (run1 T cfg init1 p).core.halt = none)
     (hstop : StopsInsideForm (run1 T cfg init1 p)) :
@@ -93,6 +95,7 @@ theorem depth_invariant (T : Tables) (cfg : Cfg) (p : List Byte) :
     in that mode (`tablesOK`, decided for the regenerated tables in Theorems/GenC02), no text can
     drive the model out of its matrix: the `table` error is unreachable, so every disagreement
     with the implementation is about a modelled action. -/
+-- (the non-trivial instance of `tablesOK T`: `GenC02.step_total` for the regenerated tables)
 theorem table_error_unreachable (T : Tables) (hT : tablesOK T = true) (cfg : Cfg) (p : List Byte)
     (code : List Obj) : readAll T cfg p ≠ .err .table code := by
   have hrun := haltOK_run1 T hT cfg p init1 (by simp [HaltOK, init1])
@@ -114,7 +117,7 @@ theorem table_error_unreachable (T : Tables) (hT : tablesOK T = true) (cfg : Cfg
       intro h; cases h; exact he rfl
 
 /-- **One-form position, part 1**: the position `readOne` reports lies within the text. -/
-theorem readOne_position_le (T : Tables) (hT : tablesOK T = true) (cfg : Cfg) (bs : List Byte)
+theorem readOne_position_partial (T : Tables) (hT : tablesOK T = true) (cfg : Cfg) (bs : List Byte)
     (o : Obj) (pos : Nat) (h : readOne T cfg bs = .ok (o, pos)) : pos ≤ bs.length := by
   have resultOf_ok : ∀ {c : Core} {n : Nat} {code : List Obj} {q : Nat},
       resultOf c n = .ok code q → c.halt = some (.one q) ∨ (c.halt = none ∧ q = n) := by
@@ -176,11 +179,64 @@ theorem readOne_ignores_rest (T : Tables) (cfg : Cfg) (p q₁ q₂ : List Byte)
   | none => exact absurd hh hhalt
   | some x => cases x <;> simp [resultOf, hh]
 
+/-- **One form at a time, first form.** The object `readOne` returns is the first of the objects
+    the whole-text read returns (whenever the whole text is readable): one-form mode and whole-text
+    mode run in lockstep until the first object is emitted, and emitted objects are never changed
+    or removed afterwards. -/
+theorem readOne_is_first_form (T : Tables) (cfg : Cfg) (bs : List Byte) (o : Obj) (pos : Nat)
+    (code : List Obj) (p : Nat)
+    (hone : readOne T cfg bs = .ok (o, pos))
+    (hall : readAll T { cfg with one := false } bs = .ok code p) :
+    code.head? = some o := by
+  -- what `resultOf … = ok` says about the code
+  have resultOf_code : ∀ {c : Core} {n : Nat} {cd : List Obj} {q : Nat},
+      resultOf c n = .ok cd q → cd = c.code := by
+    intro c n cd q h
+    unfold resultOf at h
+    split at h <;> cases h <;> rfl
+  unfold readOne at hone
+  split at hone
+  · rename_i o' tl pos' h1
+    cases hone
+    have hlock := one_vs_all T cfg bs init1 (by simp [init1]) (by simp [init1])
+    unfold readAll finish1 at h1 hall
+    rcases hlock with heq | ⟨o2, tl2, q, hh1, hc1, suffix, hc0⟩
+    · -- lockstep to the end: the two finishes differ in nothing the result depends on
+      rw [heq] at h1
+      have hf := finishCore_cfg T { cfg with one := true } { cfg with one := false } rfl rfl
+        (run1 T { cfg with one := false } init1 bs).core (run1 T { cfg with one := false } init1 bs).mode
+        (run1 T { cfg with one := false } init1 bs).tok
+      rw [hf] at h1
+      rw [h1] at hall
+      cases hall
+      rfl
+    · -- the one-form run halted with `o2 :: tl2`; the whole-text run only extended that list
+      simp only [hh1] at h1
+      have := resultOf_code h1
+      rw [hc1] at this
+      cases this
+      cases hh0 : (run1 T { cfg with one := false } init1 bs).core.halt with
+      | some x =>
+        simp only [hh0] at hall
+        have := resultOf_code hall
+        rw [this, hc0]; rfl
+      | none =>
+        simp only [hh0] at hall
+        have hcode := resultOf_code hall
+        obtain ⟨sfx, hs⟩ := ext_finishCore T { cfg with one := false }
+          (run1 T { cfg with one := false } init1 bs).core (run1 T { cfg with one := false } init1 bs).mode
+          (run1 T { cfg with one := false } init1 bs).tok
+        rw [hcode, hs, hc0]; rfl
+  · cases hone
+  · cases hone
+
 /- `readOne_position` in full — "reading `text.drop pos` from the initial state yields exactly the
    remaining forms of `readAll text`" — is NOT proved here (it needs an equivalence of the state
    reached after the first form with the initial state up to the fields a fresh read overwrites:
    `base`, `sharpNum`, `rn`, `rcnt`, `nextMode`, `line`). The correspondence harness checks it on
    every generated text instead (entries `ReadOne(form-by-form)` and `read-from-string(form-by-form)`).
-   Proved parts: `readOne_position_le`, `readOne_ignores_rest`. -/
+   Proved parts: `readOne_position_partial` (the position lies within the text),
+   `readOne_ignores_rest` (it depends only on the bytes up to the end of the form) and
+   `readOne_is_first_form` (the form is the first form of the whole-text read). -/
 
 end SlipVerif.Theorems.C02
